@@ -26,7 +26,8 @@ func sdStages(props string, quickChildren, quickCases, thChildren, thCases int) 
 			}
 			st = append(st, Stage{Name: "http", Scenario: "storehttp", Args: "props=" + props, Children: hc, Cases: hn, Timeout: 25 * time.Minute})
 		}
-		if props == "C01" || props == "C02" || props == "C06" {
+		if props == "C01" || props == "C02" || props == "C06" || props == "C03" {
+			// (C03: relation answers at the final quiescent point equal the graph of the last committed writes)
 			// concurrent stage: the C05 workload (8 writers incl. transactions queued behind batches), judged at the
 			// final quiescent point: every read path agrees on the last write, recorded times follow commit order;
 			// for C06 also: as-of lookups reproduce reads that overlapped no write critical section;
